@@ -1569,12 +1569,16 @@ package goatlang
 //@   property C16 C15
 //@   nopanic
 //@   allocates token
-//@   ensures result != nil && isfresh(result) && result.Symbol == symbol && result.Text == symbol && result.Pos == pos && len(result.Tokens) == 0
+//@   ensures result != nil && isfresh(result) && result.Symbol == symbol && result.Text == symbol && result.Pos == pos && len(result.Tokens) == 0 && cap(result.Tokens) == 0
 //@
 //@ func joinFiles
-//@   property C16
-//@   trusted
+//@   property C16 C03
+//@   requires len(files) >= 1 && (forall j int :: 0 <= j && j < len(files) ==> files[j] != nil && len(files[j].Tokens) >= 1)
 //@   allocates token elems(*token)
+//@   nopanic
+//@   ensures result != nil && isfresh(result)
+//@ func joinFiles loop 0
+//@   invariant tok != nil && isfresh(tok) && (cap(tok.Tokens) == 0 || isfresh(arr(tok.Tokens)))
 //@
 //@ func loadPackage
 //@   property C16 C15
@@ -1585,8 +1589,9 @@ package goatlang
 //@   modifies *
 //@   callsite#sorted loadImports: hoisted(arg_top)
 //@ func rawLoadPackage
-//@   property C15
+//@   property C15 C03
 //@   modifies *
+//@   callsite#fsnonnil @C03 io/fs.Glob: !isnil(arg_0)
 //@   assert#notests @2 (forall j int :: 0 <= j && j < len(matches) ==> !strings.HasSuffix(matches[j], "_test.go"))
 //@ func rawLoadPackage loop 0
 //@   invariant len(parts) >= 0 && len(matches) == 0
@@ -1594,13 +1599,16 @@ package goatlang
 //@ func rawLoadPackage loop 1
 //@   invariant forall j int :: 0 <= j && j < len(m) ==> !strings.HasSuffix(m[j], "_test.go")
 //@ func rawLoadPackage loop 2
-//@   invariant true
+//@   invariant#files (cap(files) == 0 || isfresh(arr(files))) && pkgs != nil
+//@   assume forall j int :: 0 <= j && j < len(files) ==> files[j] != nil && len(files[j].Tokens) >= 1
+//@   assume len(pkgs) == 0 || len(files) >= 1
 //@ func rawLoadPackage loop 3
 //@   invariant tree != nil
 //@
 //@ func checkConstraint
-//@   property C15
+//@   property C15 C03
 //@   modifies *
+//@   nopanic
 //@   callsite#firstline go/build/constraint.IsGoBuild: arg_0 == strings.Split(strings.TrimSpace(s), "\n")[0]
 //@   callsite#parse go/build/constraint.Parse: arg_0 == strings.Split(strings.TrimSpace(s), "\n")[0]
 //@ func checkConstraint closure 0
@@ -1608,9 +1616,16 @@ package goatlang
 //@   nopanic
 //@   ensures result == (t == "goat")
 //@ func rawLoadFile
-//@   property C15
-//@   trusted
+//@   property C15 C03
 //@   modifies *
+//@   nopanic
+//@   ensures#tree @C03 isnil(result1) ==> result0 != nil
+//@ extern fmt.Errorf(format string, a []any)
+//@   ensures !isnil(result)
+//@ extern strings.Split(s string, sep string)
+//@   ensures len(result) >= 1
+//@ extern go/build/constraint.Parse(line string)
+//@   ensures isnil(result1) ==> !isnil(result0)
 //@ extern golang.org/x/exp/slices.Index(s []string, v string)
 //@   ensures result >= -1 && result < len(s)
 //@   ensures forall j int :: 0 <= j && j < len(s) && s[j] == v ==> 0 <= result && result <= j
@@ -2667,6 +2682,7 @@ package goatlang
 //@   requires len(tokens) >= 1 && (forall j int :: 0 <= j && j < len(tokens) ==> tokens[j] != nil)
 //@   modifies *
 //@   nopanic
+//@   ensures#res result0 != nil
 //@ func parse loop 0
 //@   invariant p != nil && res != nil
 //@ func parse handler
